@@ -954,6 +954,11 @@ def run(prop, seed, budget, ctx):
         failures += sf; hist["serialization-cases"] = sn
         for f in sf: hist["P:" + f["why"][0]] += 1
         distinct |= sd
+        import corners8
+        c8f_, c8n_, c8d_, c8h_ = corners8.run_part("C08", seed, budget)
+        failures += c8f_; distinct |= c8d_; sn += c8n_
+        for k_, v_ in c8h_.items(): hist[k_] += v_
+        for f in c8f_: hist["P:" + f["why"][0].split(":")[0]] += 1
         import corners7
         pf, pn, pd, ph = corners7.run_part("C08", seed, budget)
         failures += pf; distinct |= pd; sn += pn
